@@ -111,7 +111,7 @@ pub fn all_cells(req_a: &str, req_b: &str) -> Vec<Cell> {
     let mut out = Vec::new();
     let flags: Vec<(Option<String>, bool)> = vec![(None, false), (Some(req_a.into()), false), (None, true), (Some(req_b.into()), true)];
     for (req, ns) in &flags {
-        for peer in ["P1-ok", "P2-stderr-exit1", "P3-stderr-exit0", "P4-silent-exit1"] {
+        for peer in ["P1-ok", "P2-stderr-exit1", "P2b-long-stderr-exit1", "P3-stderr-exit0", "P4-silent-exit1"] {
             out.push(Cell { mode: "run".into(), require: req.clone(), no_std: *ns, target: String::new(), peer: peer.into(), input: "present".into(), spelling: "absolute".into() });
         }
         for target in ["O1-absent", "O2-existing", "O2b-existing-longer", "O3-parent-missing", "O4-is-directory", "O5-component-is-file", "O6-dev-full"] {
@@ -306,7 +306,9 @@ impl Runner {
         };
         let _ = std::fs::create_dir_all(&cwd);
         let outdir = format!("{}/out", root);
-        let _ = std::fs::remove_dir_all(&outdir);
+        if cell.target != "O8-left-over-from-previous-compile" {
+            let _ = std::fs::remove_dir_all(&outdir);
+        }
         let _ = std::fs::create_dir_all(&outdir);
         let capture = format!("{}.peer-stdin", root);
         let _ = std::fs::remove_file(&capture);
@@ -329,7 +331,7 @@ impl Runner {
                 }
                 if m == "file" {
                     let t = match cell.target.as_str() {
-                        "O1-absent" => format!("{}/prog.lua", outdir),
+                        "O1-absent" | "O8-left-over-from-previous-compile" => format!("{}/prog.lua", outdir),
                         "O2-existing" => {
                             let p = format!("{}/prog.lua", outdir);
                             let _ = std::fs::write(&p, b"SENTINEL: previous contents of the output file\n");
@@ -373,14 +375,24 @@ impl Runner {
         let mut before = BTreeMap::new();
         tree(Path::new(root), Path::new(root), &mut before);
 
+        let long_err: String;
         let (stderr_text, exit_code) = match cell.peer.as_str() {
+            "P2b-long-stderr-exit1" => {
+                // a deep Lua stack trace: more than a pipe buffer holds
+                let mut t = String::from("lua: stdin:1: attempt to call a nil value (global 'zz')\nstack traceback:\n");
+                for k in 0..2500 {
+                    t.push_str(&format!("\tstdin:{}: in function <stdin:{}>\n", k, k));
+                }
+                long_err = t;
+                (long_err.as_str(), 1)
+            }
             "P2-stderr-exit1" => ("lua: stdin:1: attempt to call a nil value (global 'zz')\nstack traceback:\n\t[C]: in ?\n", 1),
             "P3-stderr-exit0" => ("lua: stdin:7: Assert failed!\n", 0),
             "P4-silent-exit1" => ("", 1),
             _ => ("", 0),
         };
         let mut cmd = Command::new("timeout");
-        cmd.arg("-k").arg("5").arg("120").arg("prlimit").arg("--as=4294967296").arg(&self.bin).args(&args);
+        cmd.arg("-k").arg("5").arg("30").arg("prlimit").arg("--as=4294967296").arg(&self.bin).args(&args);
         cmd.current_dir(&cwd)
             .env_clear()
             .env("PATH", &self.path_env)
@@ -464,7 +476,7 @@ pub fn judge(cell: &Cell, exp: &Expected, obs: &ProcObs, root: &str, preamble: &
     let mut notes = Vec::new();
     let label = cell.label();
     if obs.timed_out {
-        vs.push(v("process-hang", &cell.mode, format!("[{}] the sylt process did not finish within 120 s", label)));
+        vs.push(v("process-hang", &cell.mode, format!("[{}] the sylt process did not finish within 30 s", label)));
         return CellVerdict { violations: vs, observations: notes };
     }
     let exit = obs.exit.unwrap_or(-1);
@@ -506,7 +518,7 @@ pub fn judge(cell: &Cell, exp: &Expected, obs: &ProcObs, root: &str, preamble: &
         return CellVerdict { violations: vs, observations: notes };
     }
 
-    let target_ok = cell.mode != "file" || matches!(cell.target.as_str(), "O1-absent" | "O2-existing" | "O2b-existing-longer");
+    let target_ok = cell.mode != "file" || matches!(cell.target.as_str(), "O1-absent" | "O2-existing" | "O2b-existing-longer" | "O8-left-over-from-previous-compile");
     let peer_ok = cell.mode != "run" || cell.peer == "P1-ok";
     let should_succeed = exp.accepted && target_ok && peer_ok;
 
@@ -552,7 +564,7 @@ pub fn judge(cell: &Cell, exp: &Expected, obs: &ProcObs, root: &str, preamble: &
         }
     }
     if exp.accepted && cell.mode == "run" && !peer_ok {
-        let text = if cell.peer.starts_with("P2") { "attempt to call a nil value" } else { "Assert failed!" };
+        let text = if cell.peer.starts_with("P2b") { "in function <stdin:2499>" } else if cell.peer.starts_with("P2") { "attempt to call a nil value" } else { "Assert failed!" };
         if !all_out.contains(text) {
             vs.push(v("errors-not-printed", "lua-stderr", format!("[{}] lua's error text is not in the output", label)));
         }
@@ -740,6 +752,7 @@ struct Agg {
     rerun_mismatch: u64,
     sample: Option<J>,
     no_std_equiv_checked: u64,
+    hangs: BTreeMap<String, u64>,
 }
 
 fn layer_b_doc(prop: &str, v: &Violation, prog: &Program, cell: &Cell, obs: &ProcObs, root: &str, batch_seed: u64, index: u64) -> J {
@@ -781,6 +794,7 @@ pub fn run_c20(tier: &str, batch_seed: u64) -> LayerBResult {
         rerun_mismatch: 0,
         sample: None,
         no_std_equiv_checked: 0,
+        hangs: BTreeMap::new(),
     }));
     let threads = 16u64;
     let n_cells = all_cells("a", "b").len();
@@ -819,7 +833,16 @@ pub fn run_c20(tier: &str, batch_seed: u64) -> LayerBResult {
                         let e = expected_for(&prog, &root_used, &None, cell.no_std, main_missing);
                         exp_cache.insert(plain_key.clone(), e);
                     }
+                    // a cell that keeps hanging costs 30 s each time: after a few, stop running that cell
+                    let hung_before = { agg.lock().unwrap().hangs.get(&cell.label()).copied().unwrap_or(0) };
+                    if hung_before >= 3 {
+                        *agg.lock().unwrap().observations.entry(format!("cell {} skipped after 3 hangs", cell.label())).or_insert(0) += 1;
+                        continue;
+                    }
                     let obs = runner.run_cell(&prog, cell, &root_used, &[]);
+                    if obs.timed_out {
+                        *agg.lock().unwrap().hangs.entry(cell.label()).or_insert(0) += 1;
+                    }
                     local_cells += 1;
                     let exp = &exp_cache[&key];
                     if ci == 0 {
@@ -1031,8 +1054,16 @@ const ENVS: &[&[(&str, &str)]] = &[
 ];
 
 fn c16_observe(runner: &Runner, prog: &Program, root: &str, rep: usize) -> String {
-    let cell = Cell { mode: "file".into(), require: None, no_std: false, target: "O1-absent".into(), peer: String::new(), input: "present".into(), spelling: "absolute".into() };
+    let mut cell = Cell { mode: "file".into(), require: None, no_std: false, target: "O1-absent".into(), peer: String::new(), input: "present".into(), spelling: "absolute".into() };
     let env: Vec<(String, String)> = ENVS[rep % ENVS.len()].iter().map(|(k, v)| (k.to_string(), v.to_string())).collect();
+    if rep % 3 == 2 {
+        // history through the file system: the output path still holds what an earlier compilation
+        // (same sources, another flag) left there
+        let mut prev = cell.clone();
+        prev.require = Some("zz_previous_build".into());
+        let _ = runner.run_cell(prog, &prev, root, &env);
+        cell.target = "O8-left-over-from-previous-compile".into();
+    }
     let obs = runner.run_cell(prog, &cell, root, &env);
     let out = normalise(root, &strip_ansi(&String::from_utf8_lossy(&obs.stdout)));
     format!(
@@ -1160,7 +1191,7 @@ pub fn judge_c07_process(obs: &ProcObs) -> Option<Violation> {
         return Some(Violation { prop: "C07".into(), clause: "harness".into(), class: "spawn-failed".into(), detail: err });
     }
     if obs.timed_out {
-        return Some(Violation { prop: "C07".into(), clause: "process-hang".into(), class: "120s".into(), detail: "the sylt process did not terminate within 120 s".into() });
+        return Some(Violation { prop: "C07".into(), clause: "process-hang".into(), class: "30s".into(), detail: "the sylt process did not terminate within 30 s".into() });
     }
     match obs.exit {
         Some(0) | Some(1) => None,
